@@ -62,12 +62,19 @@ CLAIMED = {
         technique="bounded exhaustive check of the real function (stand-in where contract-based deductive verification does not reach), labelled bounded",
         design="3/C17",
     ),
+    "C13": dict(
+        category="proof",
+        text="Trace contracts on VideoReader.run and LabelsReader.run with every frame read declared 'may raise': on every path (normal completion, a read failure at any index) the sequence of queue puts is frame(start), ..., frame(start+k-1), END-MARKER with each frame carrying its own frame index, video index, source position and original size, exactly one marker, last; k equals the whole range when nothing failed and the failing position otherwise -- for all ranges (incl. empty), frame counts and frame sizes, by loop invariant over a ghost put-trace.",
+        note="ASSUMED: queue.Queue is a linearizable blocking FIFO (put appends to the trace; a blocked put resumes after a get). Under that contract every producer/consumer interleaving and queue capacity yields this same put sequence; the schedules themselves are NOT explored. Not decided: the consumer loop of Predictor._predict_generator (batching in order, partial last batch, exit at the marker, join) and LabelsReader with instances_key=True; termination of the bounded range loop is by construction of range(), not a discharged obligation.",
+        technique="contract-based deductive verification: loop invariant over a ghost trace, exceptional paths through try/except/finally, VCs discharged by z3",
+        design="3/C13",
+    ),
 }
 
 NOT_APPLICABLE = {
     "C19": "no pre/postcondition on a function of this repository expresses it: training completion, artifacts and crash-point file contents live in Lightning/wandb/OmegaConf and the file system (DESIGN.md section 5)",
 }
-NOT_BUILT = ["C02", "C03", "C08", "C09", "C10", "C12", "C13", "C14", "C16", "C18", "C20"]
+NOT_BUILT = ["C02", "C03", "C08", "C09", "C10", "C12", "C14", "C16", "C18", "C20"]
 
 
 def main():
